@@ -29,6 +29,7 @@ AREA_RO = 0x20002000
 AREA_NONE = 0x20004000
 AREA_RWX = 0x20006000
 STACK = 0x30000000
+AREA_HI = 0x120000000      # above 4 GiB: segment base + 32-bit offset must not be truncated
 PAGE = 0x1000
 M64 = (1 << 64) - 1
 
@@ -177,7 +178,7 @@ def rand_val(rng):
 FLAG_BITS = [0x1, 0x4, 0x10, 0x40, 0x80, 0x800]
 
 
-def make_state(rng, cand, d, rip, want_fault=None):
+def make_state(rng, cand, d, rip, want_fault=None, force_T=None):
     """build the machine state around a decoded candidate; returns a case dict"""
     code = bytearray(cand.bytes[: int(d["len"], 16)])
     ln = len(code)
@@ -195,8 +196,10 @@ def make_state(rng, cand, d, rip, want_fault=None):
         gs = rng.choice([0, 0x2000, 0x80, rng.randrange(1 << 12) * 16])
     # stack pointer: inside the stack area unless the instruction uses RSP as data
     regs[6] = STACK + 0x800 + rng.choice([0, 8, 16, 0x100])
-    if rng.random() < 0.03:
-        regs[6] = rng.choice([STACK, STACK + PAGE - 8, STACK + PAGE, STACK + 4, AREA_RO + 0x100, AREA_NONE + 0x100, 0x40000000])
+    if rng.random() < (0.12 if d["code"].split("_")[0] in ("Push", "Pushq", "Pop", "Call", "Retnq") else 0.03):
+        regs[6] = rng.choice([STACK, STACK + PAGE - 8, STACK + PAGE, STACK + 4, AREA_RO + 0x100, AREA_NONE + 0x100, 0x40000000,
+                              STACK + PAGE - 7, STACK + PAGE - 9, STACK + PAGE - 1, STACK + PAGE - 15, STACK + PAGE - 16, STACK - 1,
+                              STACK + 1, STACK + 7, STACK + 8])
     has_mem = "Memory" in (d["k0"], d["k1"], d["k2"], d["k3"])
     placement = "none"
     if has_mem:
@@ -217,6 +220,16 @@ def make_state(rng, cand, d, rip, want_fault=None):
             placement, T = "rwx", AREA_RWX + rng.randrange(0x40, PAGE - 0x40)
         else:
             placement, T = "start", rng.choice([AREA_RW, AREA_RW - 1, AREA_RO - 1, STACK - 4])
+        if force_T is not None:
+            placement, T = "edge", force_T
+        elif d["seg"] in ("FS", "GS") and rng.random() < 0.4:
+            # linear address above 4 GiB reached through a segment base
+            placement, T = "hi", AREA_HI + rng.randrange(0x40, PAGE - 0x40)
+            sb = rng.choice([0x100000000, 0x100001000, 0xfffff000, 0x100000000 - 0x10])
+            if d["seg"] == "FS":
+                fs = sb
+            else:
+                gs = sb
         seg = {"FS": fs, "GS": gs}.get(d["seg"], 0)
         base, index = d["base"], d["index"]
         scale = int(d["scale"], 16)
@@ -269,7 +282,7 @@ def make_state(rng, cand, d, rip, want_fault=None):
         return bytes(rng.randrange(256) if rng.random() < 0.7 else rng.choice([0, 0xff, 0x80, 0x7f]) for _ in range(n))
     # data: sparse random windows to keep the case text small
     areas = []
-    for start, prot in ((AREA_RW, 3), (AREA_RO, 1), (AREA_NONE, 0), (AREA_RWX, 7), (STACK, 3)):
+    for start, prot in ((AREA_RW, 3), (AREA_RO, 1), (AREA_NONE, 0), (AREA_RWX, 7), (STACK, 3), (AREA_HI, 3)):
         areas.append([start, PAGE, prot, {}])
     code = code[:ln]
     case = dict(seg=d["seg"], base=d["base"], nb64=int(d["nb64"], 16), code=bytes(code), rip=rip, regs=regs, xmm=xmm, flags=flags, fs=fs, gs=gs, areas=areas,
@@ -488,6 +501,34 @@ def generate(axh, seed, n, codes_filter=None, per_code_cap=None):
             if len(out) >= n:
                 break
     return out, count
+
+
+def generate_edge_sweep(axh, seed):
+    """for every dispatched form with a memory operand: the operand ending exactly at, and 1..k bytes
+    beyond, the end of a mapped area (k = every access size)"""
+    rng = random.Random(seed ^ 0x5eed)
+    table = load_codes()
+    dispatched = set(table["codes"]) - set(table["stubs"])
+    rip = CODE_BASE + 0x100
+    have = {}
+    for _ in range(6):
+        cands = [gen_candidate(rng) for _ in range(6000)]
+        decs = decode_bulk(axh, cands, rip)
+        for c, toks in zip(cands, decs):
+            d = dec_dict(toks)
+            if d is None or d["code"] not in dispatched or "Memory" not in (d["k0"], d["k1"], d["k2"]):
+                continue
+            if d["base"] in ("RSP", "ESP", "RIP", "EIP") or d["seg"] in ("FS", "GS"):
+                continue
+            if d["base"] == d["index"] or (d["base"] == "None" and d["index"] == "None"):
+                continue
+            have.setdefault(d["code"], (c, d))
+    out = []
+    for code in sorted(have):
+        c, d = have[code]
+        for k in (1, 2, 3, 4, 7, 8, 15, 16):
+            out.append(make_state(rng, c, d, rip, force_T=AREA_RW + PAGE - k))
+    return out
 
 
 if __name__ == "__main__":
